@@ -27,7 +27,12 @@ import (
 	"github.com/containers/nri-plugins/pkg/zzverif/vfkit"
 )
 
-func init() { logger.SetLevel(logger.LevelError) }
+func init() {
+	logger.SetLevel(logger.LevelError)
+	if os.Getenv("VERIF_TRACE") == "2" {
+		logger.SetLevel(logger.LevelWarn)
+	}
+}
 
 const (
 	polTA       = "topology-aware"
